@@ -55,6 +55,9 @@ type c03Case struct {
 	Bulk int `json:"bulk,omitempty"`
 	// AckOrder: run the verif hook of package connection (the identifier freed by an acknowledgement is reused at once)
 	AckOrder bool `json:"ackorder,omitempty"`
+	// Over: the durable session begins by TAKING OVER a connected clean session of the same client id: from the CONNACK
+	// on it is as durable as any other
+	Over bool `json:"over,omitempty"`
 }
 
 type c03Wire struct {
@@ -186,6 +189,7 @@ func (p *c03Prop) Gen(r *Rng, i int, tier string) interface{} {
 	n := 4 + r.Intn(22)
 	online := true
 	reconnects := p.id == "C02" || r.Chance(50)
+	c.Over = reconnects && r.Chance(20)
 	for k := 0; k < n; k++ {
 		x := r.Intn(100)
 		switch {
@@ -414,7 +418,7 @@ func (p *c03Prop) Run(ci interface{}) interface{} {
 	}
 	obs := &c03Obs{}
 	var gate *persistGate
-	bo := BrokerOpts{}
+	bo := BrokerOpts{Preempt: c.Over}
 	for _, op := range c.Ops {
 		if op.Op == "late" {
 			mp, err := persistenceMem.Load(nil, nil)
@@ -452,6 +456,14 @@ func (p *c03Prop) Run(ci interface{}) interface{} {
 			return nil, err
 		}
 		return cl.Auto(true), nil
+	}
+	if c.Over {
+		oc := b.Dial()
+		if _, err := oc.Connect(ConnectOpts{ID: "S", Ver: ver, Clean: true}); err != nil {
+			obs.Err = "S (clean): " + err.Error()
+			return obs
+		}
+		_ = oc.Auto(false)
 	}
 	s, err := connectS(c.RM, true)
 	if err != nil {
